@@ -19,7 +19,8 @@ RULE = (
     "has at least one styled character or an empty span"
 )
 ASSUMPTIONS = [
-    "spans are flat (no nesting) and balanced in the input; every node has the same (absent) layout",
+    "spans are flat (no nesting) and balanced in the input; layouts, where present, are constant within a span",
+    "SCC reader results are checked on italics-focused pop-on programs with the reference decoder of C05 (balance and per-character flags)",
     "DFXP carries italics only: bold/underline are compared on SAMI and WebVTT targets only",
     "visible characters are compared ignoring whitespace (writers join text nodes differently)",
 ]
@@ -38,7 +39,7 @@ STYLES = {
     "ibu": {"italics": True, "bold": True, "underline": True},
     "cls": {"class": "myclass"},
 }
-PAIRS_QUICK = [("i", "i"), ("i", "b"), ("b", "u"), ("ib", "u"), ("cls", "i"), ("ibu", "i"), ("i", "cls")]
+PAIRS_QUICK = [("i", "i"), ("i", "b"), ("b", "u"), ("ib", "u"), ("cls", "i"), ("ibu", "i"), ("i", "cls"), ("i", "ib"), ("u", "ibu")]
 ROUTES = ["dfxp", "sami", "dfxp>sami", "sami>dfxp", "vtt", "dfxp>vtt", "sami>vtt"]
 
 
@@ -322,8 +323,32 @@ def span_sets(shape, tier):
                         yield [(a, b, s1), (c, d, s2)]
 
 
+SCC_LAYOUTS = [[1, 8, 15], [2, 9], [1, 5, 9, 13], [14, 15], [3, 4, 12], [15]]
+
+
+def scc_programs():
+    """italics-focused pop-on programs (reference decoder and comparison of C05): every row opened by an italic or
+    plain preamble, mid-row italic on/off inside rows, rows adjacent and non-adjacent, one and two captions"""
+    from mc.checks import c05
+
+    row_contents = [
+        [("C2", "A", "b")],
+        [("C2", "A", "b"), ("MRP",), ("C2", "A", "b")],
+        [("MRI",), ("C2", "A", "b")],
+        [("C2", "A", "b"), ("MRI",), ("C1", "A")],
+    ]
+    for lay in SCC_LAYOUTS:
+        for pacs in itertools.product((False, True), repeat=len(lay)):
+            for ci in range(len(row_contents)):
+                rows = []
+                for k, (r, it) in enumerate(zip(lay, pacs)):
+                    rows += [("PAC", r, 0, it, 0)] + row_contents[(ci + k) % len(row_contents)]
+                yield [c05.wrap(rows)]
+                yield [c05.wrap(c05.FIRST[6]), c05.wrap(rows)]
+
+
 def shards(tier, seed):
-    sh = []
+    sh = [{"route": "scc", "shape": -1, "tier": tier, "part": 0, "nparts": 1}]
     for si, shape in enumerate(shapes()):
         for route in ROUTES:
             parts = 1 if len(atoms(shape)) <= 4 else (2 if tier == "quick" else 6)
@@ -334,12 +359,26 @@ def shards(tier, seed):
 
 def run_shard(d):
     acc = Acc()
+    if d["route"] == "scc":
+        from mc.checks import c05
+
+        for prog in scc_programs():
+            for doubled in (False, True):
+                v, g, out = c05.compare(prog, doubled)
+                if v is None:
+                    acc.count("scc_programs_outside_domain")
+                    continue
+                acc.case(("scc", prog, doubled), True, out, {"route": "scc-reader", "program": prog, "doubled": doubled})
+                for kind, det in v:
+                    if kind in ("italics-unbalanced", "italic-flags", "text", "caption-count") or kind.startswith("raises"):
+                        acc.violation(f"C11/scc-reader/{kind}", {"route": "scc", "prog": prog, "doubled": doubled}, det)
+        return acc.result()
     shape = shapes()[d["shape"]]
     for i, spans in enumerate(span_sets(shape, d["tier"])):
         if i % d["nparts"] != d["part"]:
             continue
         lays = [None]
-        if len(spans) == 2 and spans[0][0] < spans[0][1] and spans[1][0] < spans[1][1] and (spans[0][2], spans[1][2]) in (("i", "i"), ("i", "b"), ("ib", "u")):
+        if len(spans) == 2 and spans[0][0] < spans[0][1] and spans[1][0] < spans[1][1] and (spans[0][2], spans[1][2]) in (("i", "i"), ("i", "b"), ("ib", "u"), ("i", "ib"), ("u", "ibu")):
             lays = [None, "same", "diff"]  # the two spans carry layouts (each span within nodes of one layout)
         for lay in lays:
             v, out = run_route(d["route"], shape, spans, lay)
@@ -350,6 +389,12 @@ def run_shard(d):
 
 
 def replay(case):
+    if case.get("route") == "scc":
+        from mc.checks import c05
+
+        prog = [[c05._t(e) for e in c] for c in case["prog"]]
+        v, g, out = c05.compare(prog, case["doubled"])
+        return [{"sig": f"C11/scc-reader/{kind}", "detail": det} for kind, det in (v or []) if kind in ("italics-unbalanced", "italic-flags", "text", "caption-count") or kind.startswith("raises")]
     shape = tuple(case["shape"])
     spans = [tuple(s) for s in case["spans"]]
     lay = case.get("lay")
